@@ -630,3 +630,6 @@ def _first_diff(a, b):
 #  8. immutable.py BucketWriter.disconnected: ignored                                         CAUGHT (abort-leaves-share, reservation-ledger)
 #  9. immutable.py write_share_data: DataTooLargeError limit off by one                       CAUGHT (too-large-accepted)
 # 10. immutable.py BucketWriter.close: rename to the final home dropped                       CAUGHT (op-raises-close-FileNotFoundError)
+# 11. http_server.py write_share_data: conflict pre-check of a PATCH > 64 KiB uses the un-advanced offset for every
+#     64 KiB piece (seeded C22-5)              CAUGHT (http-consistent-write-rejected, http-rejected-write-changed-data)
+#     -- was caught by C31 only until the HTTP leg (do_http_big: vf.http.HttpStorage over the same server) was added.
